@@ -144,6 +144,11 @@ def run(ctx):
                  "lengths": [300], "data_seed": 1700 + j, "rng_seed": 1700 + j, "regimes": 5} for j in ((11, 59) if not ctx.thorough else (11, 59, 23, 131))]
         cen += [{"N": 2, "W": 1, "K": 2, "beta": 0.0, "lam": 0.11, "limit": 30, "m": 2, "biased": False, "eps": 0, "joint": False,
                  "lengths": [90], "data_seed": 1750 + j, "rng_seed": 1750 + j, "regimes": 2, "scale": 2.5} for j in range(ctx.budget(8, 24))]
+        # runs in which the relabelling phase answers with a scripted sequence of labellings (e2e.traced_run, "relabel_script"):
+        # one that settles (A, B, B: a genuine fixed point) and two that cycle with period 2 / 3 and therefore never converge
+        cen += [{"N": 2, "W": 1, "K": 2, "beta": 2.0, "lam": 0.11, "limit": [8, 8, 9][j], "m": 2, "biased": False, "eps": 0, "joint": False,
+                 "lengths": [64], "data_seed": 1790 + j, "rng_seed": 1790 + j, "regimes": 2, "relabel_script": sc}
+                for j, sc in enumerate(["settle", "cycle2", "cycle3"])]
         runs = runs + e2e.cached_runs(ctx, cen, "c17")
         for r in runs:
             ctx.count("run")
